@@ -153,7 +153,7 @@ theorem nodesValueNames_norm : ∀ ns : List NodeP, nodesValueNames (normNodes n
 theorem graphValueNames_norm : ∀ g : GraphP, graphValueNames (normGraph g) = graphValueNames g
   | .mk name doc nodes inits inputs outputs vis quant md => by
     simp [normGraph, graphValueNames, nodesValueNames_norm nodes, List.map_map, Function.comp_def,
-      normValueInfo, normTensor]
+      normInputVI_name, normOutputVI_name, normTensor]
 end
 
 mutual
